@@ -299,7 +299,9 @@ class MD3(DriftDetector):
         self.drift_state = None
 
         if self.oracle_data is None:
-            self.oracle_data = labeled_sample.copy()
+            # columns are identified by name: keep the collected samples in the
+            # reference's column order, whatever order the sample lists them in
+            self.oracle_data = labeled_sample[reference_columns].copy()
         else:
             self.oracle_data = pd.concat(
                 [self.oracle_data, labeled_sample], ignore_index=True
